@@ -270,9 +270,9 @@ func corrC09(r *Run) {
 	r.Import("Model.Base")
 	r.Import("Model.IntervalMap")
 	r.Import("Model.Charset")
-	r.Import("Model.Detect")
 	r.Import("Model.Splitter")
-	r.Import("Model.Compose")
+	r.Import("Model.Compose") // before Model.Detect: `compose` in the cases is Detect.compose (ShortMessage.Compose)
+	r.Import("Model.Detect")
 	r.Import("Model.ComposePipeline")
 	r.PerShard(100)
 	r.Rule = "every Unicode scalar value as a one-character text through BestCoding and BestSafeCoding, the returned coding's encoder and decoder " +
@@ -636,9 +636,10 @@ func (cx *c09ctx) checkPipeline(op string, detect func(string) coding.DataCoding
 			joined = append(joined, []rune(d)...)
 		}
 		if okAll && !eqRunes(joined, runes) {
-			if c == coding.GSM7BitCoding && gsmJoin(runes, pieces, nil) {
-				// a segment of 8k septets ending in CR reads back without it: the C08 rule, per part
-				r.Hist["pipeline: GSM 7-bit part lost its final CR (C08 rule)"]++
+			if c == coding.GSM7BitCoding && gsm7JoinModuloCR(runes, pieces) {
+				// a segment of 8k septets ending in CR reads back without it: the known GSM 03.38 6.1.2.3.1 class, per part
+				r.Fail("pipeline/gsm7/final-CR-at-8k-septets", "a GSM 7-bit part of 8k septets ending in CR reads back without the CR", in,
+					fmt.Sprintf("%d parts, joined %s", len(parts), describeText(joined)), "the text "+describeText(runes))
 			} else {
 				r.Fail("pipeline/"+name+"/parts-read-back-as-another-text", "the parts, decoded with the coding they carry and joined, are not the text", in,
 					fmt.Sprintf("%d parts, joined %s", len(parts), describeText(joined)), "the text "+describeText(runes))
@@ -659,6 +660,32 @@ func (cx *c09ctx) checkPipeline(op string, detect func(string) coding.DataCoding
 		}
 		r.Case(clip(in, 80), fmt.Sprintf("pipeline_case %s %d %s %d %d %s", fn, ref, coqText(runes), byte(c), cls, coqList(obs)))
 	}
+}
+
+// gsm7JoinModuloCR: do the decoded pieces reproduce the text, where a piece may have lost its final CR exactly when,
+// counting that CR, the segment has a positive multiple of 8 septets (the known GSM 03.38 6.1.2.3.1 class; septets as the
+// running encoder counts them)?
+func gsm7JoinModuloCR(text []rune, pieces [][]rune) bool {
+	var rec func(pos, i int) bool
+	rec = func(pos, i int) bool {
+		if i == len(pieces) {
+			return pos == len(text)
+		}
+		d := pieces[i]
+		if pos+len(d) > len(text) || !eqRunes(text[pos:pos+len(d)], d) {
+			return false
+		}
+		if rec(pos+len(d), i+1) {
+			return true
+		}
+		if pos+len(d) < len(text) && text[pos+len(d)] == '\r' {
+			if n := gsm7SeptetCount(string(d) + "\r"); n > 0 && n%8 == 0 {
+				return rec(pos+len(d)+1, i+1)
+			}
+		}
+		return false
+	}
+	return rec(0, 0)
 }
 
 func indexRune(rs []rune, x rune) int {
